@@ -60,7 +60,7 @@ def run_all(selector, tier="quick"):
 
 _LEAN_FAMILIES = {"L1-mono-def", "L2-range", "L2'-negcount", "L3-bool-idempotent", "L4-spin-parity", "L5-fold-update", "sq-shape",
                   "L6/L7-slack", "L8-num_bits", "L9-relabel", "L10-split", "set-facts",
-                  "L11-enum", "L12-count", "L13-origin", "intp-closure"}
+                  "L11-enum", "L12-count", "L13-origin", "intp-closure", "L14-keyanc"}
 
 
 def lean_status():
